@@ -30,6 +30,12 @@ def main():
     demo = os.path.join(src, "demo.rs")
     env = dict(os.environ, CARGO_TARGET_DIR=f"{wt}/target", CARGO_NET_OFFLINE="true")
     ran = []
+    # --confirm-only: stop after step 1 (touches only the scratch worktree; several may run side by side) and leave
+    # <src>/confirmed.json; --confirmed: take step 1 from that file and do steps 2 and 3 (serial: they use /repo itself)
+    marker = os.path.join(src, "confirmed.json")
+    if "--confirmed" in sys.argv:
+        c = json.load(open(marker))
+        return record(sid, prop, meta, patch, demo, c["loc"], c["cmd"], c["ran"], True, True, True)
     # clean worktree
     sh("git checkout -- . && git clean -fdq -e target", cwd=wt)
     rc, out = sh(f"git apply --check {patch} && git apply {patch}", cwd=wt)
@@ -74,6 +80,13 @@ def main():
         print(out2[-800:])
         print("NOT CONFIRMED")
         return 1
+    if "--confirm-only" in sys.argv:
+        json.dump({"loc": loc, "cmd": cmd, "ran": ran}, open(marker, "w"))
+        return 0
+    return record(sid, prop, meta, patch, demo, loc, cmd, ran, tests_ok, fails_with, passes_without)
+
+
+def record(sid, prop, meta, patch, demo, loc, cmd, ran, tests_ok, fails_with, passes_without):
     # 2. checks against /repo with the patch applied
     rc, out = sh("git status --short", cwd="/repo")
     if out.strip():
